@@ -10,6 +10,7 @@ import Woodpile.Driver.Iovec
 import Woodpile.Driver.CodecW
 import Woodpile.Driver.RoughTlv
 import Woodpile.Driver.Hcobs
+import Woodpile.Driver.StreamWorld
 import Woodpile.Driver.Scale
 
 open Woodpile.Driver
@@ -30,6 +31,8 @@ def families : List (String × Family) :=
   ++ [("nfs", NfsFam.family)]
   ++ [("chunker", StreamFam.chunkerFamily)]
   ++ [("reader", StreamFam.readerFamily)]
+  ++ [("chunkerw", StreamWorldFam.chunkerwFamily)]
+  ++ [("readerw", StreamWorldFam.readerwFamily)]
   ++ [("scale_iovec", ScaleFam.wrap IovecFam.family)]
   ++ [("scale_codec", ScaleFam.wrap CodecWFam.family)]
   ++ [("scale_chunker", ScaleFam.wrap StreamFam.chunkerFamily)]
